@@ -3251,8 +3251,10 @@ class StateRetainer:
         ``backUp()`` or ``restoreBackup()``.
         """
         paramDefs = set()
+        rootMaterial = getattr(self.composite, "material", None)
         items = itertools.chain(
             (self.composite,),
+            () if rootMaterial is None else (rootMaterial,),
             self.composite.iterChildrenWithMaterials(deep=True),
         )
         for child in items:
